@@ -34,9 +34,11 @@ const (
 
 // Task is one schedulable goroutine.
 type Task struct {
-	ID      int
-	Name    string
-	Daemon  bool
+	ID     int
+	Name   string
+	Daemon bool
+	// Timer: the task stands for a timer of the code under test (it "fires" when it is picked)
+	Timer   bool
 	state   int
 	on      any // object the task is blocked on
 	rfd     int
@@ -96,10 +98,13 @@ type Sched struct {
 	// when unfinished tasks exist but none is runnable; it may wake tasks and
 	// return true to continue.
 	OnQuiesce func() bool
+	// LazyTimers: timers of the code under test fire only when nothing else can run (time passes while everybody
+	// waits); otherwise they fire whenever the strategy picks them (any moment after their creation)
+	LazyTimers bool
 	// OnRealPark is called (scheduler context) when a task inside a channel operation of the code under test is
 	// found parked in the Go runtime for the first time in that operation.
 	OnRealPark func(t *Task)
-	ordHash   uint64
+	ordHash    uint64
 	// join is the one visible synchronisation of the harness: finished tasks release into it, the main
 	// goroutine acquires from it before reading what tasks wrote. Done() only releases, so it orders no
 	// task after another task.
@@ -116,7 +121,7 @@ type Sched struct {
 	// TimeStall: the run ended (as Deadlock) with tasks parked in channel operations that only such a timer or deadline
 	// could still complete: no verdict about completion
 	TimeStall bool
-	mon         Task
+	mon       Task
 }
 
 // stallAfter is the wall-clock guard of one scheduled run (runs take milliseconds).
@@ -303,13 +308,35 @@ func (s *Sched) Current() *Task { return s.cur }
 
 //go:norace
 func (s *Sched) runnableTasks() []*Task {
-	var out []*Task
+	var out, timers []*Task
 	for _, t := range s.tasks {
 		if t.state == runnable {
+			if t.Timer && s.LazyTimers {
+				timers = append(timers, t)
+				continue
+			}
 			out = append(out, t)
 		}
 	}
+	if len(out) == 0 {
+		// nothing else can run: time passes, timers fire
+		return timers
+	}
 	return out
+}
+
+// SetLazyTimers switches the timer policy (callable from tasks).
+//
+//go:norace
+func (s *Sched) SetLazyTimers(v bool) { s.LazyTimers = v }
+
+// GoTimer adds a daemon task that stands for a timer of the code under test.
+//
+//go:norace
+func (s *Sched) GoTimer(name string, fn func()) *Task {
+	t := s.Go(name, true, fn)
+	t.Timer = true
+	return t
 }
 
 // choose picks the next task among the candidates.
